@@ -735,6 +735,7 @@ def run_history(ctx, case, oracle=True):
         return trace, None
     pool, kinds = [seq], ['sr' if case['via'] == 'setattr' else kind]
     n_deep, keep = 0, []          # deep copies made so far; they are kept alive (object ids serve as keys)
+    groups, n_groups = [0], 1     # members that are names of ONE sequence (copy.copy) share a group number
     obs = [_observe(seq, objs, probes)]
     trace.append({'err': None, 'obs': obs, 'probes': list(probes)})
     if oracle:
@@ -768,10 +769,20 @@ def run_history(ctx, case, oracle=True):
                                 objs.register(objs.tag_of[id(a)] + 1000000 * 2 ** n_deep, b)
                     keep.append(new)
                 _pool_put(pool, kinds, new, nk)
+                g = groups[t] if op['op'] == 'copy' else n_groups
+                n_groups += 1
+                if len(groups) < len(pool):
+                    groups.append(g)
+                else:
+                    groups[2] = g
             except Exception as e:  # noqa: BLE001
                 err = _kind_of(e)
         else:
+            was = pool[t]
             pool[t], err = _apply(pool[t], op, objs, kinds[t])
+            if pool[t] is not was:        # find / get_nodes handed back a new sequence: the name now stands for that one
+                groups[t] = n_groups
+                n_groups += 1
             if err == 'runtime' and op['op'] == 'extend_self':
                 if oracle:
                     ctx.fail({'case': case, 'step': k}, 'seq.extend(seq) / seq += seq did not terminate', site='extend-self')
@@ -810,6 +821,19 @@ def run_history(ctx, case, oracle=True):
                     u in objs.specs and _ctor_documented_ok(kinds[t], objs.specs[u]) for u in trace[-2]['obs'][t]['uids']):
                 ctx.fail({'case': case, 'step': k}, f'a sequence could not be constructed from a {kinds[t]} sequence with the '
                                                     f'same flags ({err})', site='clone')
+            prev = trace[-2]['obs']
+            if op['op'] not in POOL_OPS and prev:
+                # a sequence built FROM another one (constructor, attribute setter, deep copy, pickle, query result) is a
+                # sequence of its own: an operation on one name changes only the sequence behind that name
+                for m in range(min(len(prev), len(pool))):
+                    if m != t and groups[m] != groups[t] and \
+                            (obs[m]['list'], obs[m]['find']) != (prev[m]['list'], prev[m]['find']):
+                        ctx.fail({'case': case, 'step': k}, {'what': f'{op["op"]} on one sequence changed another sequence that was '
+                                                            'built from it (or from which it was built)',
+                                                            'other_list_before': prev[m]['list'], 'other_list_after': obs[m]['list'],
+                                                            'other_find_before': prev[m]['find'], 'other_find_after': obs[m]['find']},
+                                 site='interference')
+                        break
             for m, (member, mk) in enumerate(zip(pool, kinds)):
                 _oracle(ctx, case, k, member, mk, objs, probes, obs[m])
     return trace, objs
